@@ -601,6 +601,10 @@ theorem step_inv (K : Pinned) {c c' : Cfg} {op : Op} (hc : Inv c) (h : step c op
     simp only [step] at h
     cases h
     exact { hc with }
+  | migrate =>
+    simp only [step] at h
+    cases h
+    exact hc
 
 theorem reach_inv (K : Pinned) (ops : List Op) {c : Cfg} (hc : Inv c) : Inv (reach c ops) := by
   induction ops generalizing c with
@@ -734,6 +738,7 @@ theorem step_no_token_factory_vault {c c' : Cfg} {op : Op} (hs : op.stockLp = tr
     · cases h
     · split at h <;> cases h; exact hc
   | advance _ => simp only [step] at h; cases h; exact hc
+  | migrate => simp only [step] at h; cases h; exact hc
 
 
 end WW.Config
